@@ -70,6 +70,10 @@ SHAPES = [
     ('t5nopad', dict(length=5, pad=False)),
     ('t4othertag', dict(length=4, tag=0x1111, h=500005)),
     ('t12blank', dict(length=12, h=900009)),
+    # the 1024-byte limit holds for every kind of entry (binary, unknown tag), complete and consistent or not
+    ('t1025bin', dict(length=1025, tag=rtrace.TAG_BIN, h=999997)),
+    ('t1028bin', dict(length=1028, tag=rtrace.TAG_BIN, h=1000010)),
+    ('t2000othertag', dict(length=2000, tag=0x1111, h=500005)),
 ]
 
 
